@@ -69,6 +69,39 @@ def _is_fresh(v: ast.AST) -> bool:
     return False
 
 
+
+def scenario_dict_alias_rule(idx: Index, res: Result, rule: str) -> None:
+    """A scenario's own constants/points dictionaries never alias manager-level tables (shared by C06 and C07)."""
+    # ---- SCENDICT: a scenario's own constants/points dicts never alias manager-level tables -----------------------
+    # (configure_settings, the REST settings handler and set_property_value write into scenario.constants/points in place)
+    nsd = 0
+    for qual in ("ScenarioManagerSd.add_scenarios", "ScenarioManagerSd.load_scenarios"):
+        fi = idx.func(SM_SD, qual)
+        for n in walk_no_nested(fi.node):
+            cand = []
+            if isinstance(n, ast.Assign) and isinstance(n.targets[0], ast.Subscript) and const_str(n.targets[0].slice) in ("constants", "points"):
+                cand.append((const_str(n.targets[0].slice), n.value, n))
+            if isinstance(n, ast.Call) and call_name(n) == "setdefault" and len(n.args) == 2 and const_str(n.args[0]) in ("constants", "points"):
+                cand.append((const_str(n.args[0]), n.args[1], n))
+            if isinstance(n, ast.Call) and call_name(n) == "get" and len(n.args) == 2 and const_str(n.args[0]) in ("constants", "points") \
+                    and isinstance(n.args[1], ast.Attribute):
+                cand.append((const_str(n.args[0]), n.args[1], n))
+            for kind, v, node in cand:
+                nsd += 1
+                shared = isinstance(v, (ast.Attribute, ast.Name)) and not _is_fresh(v)
+                if isinstance(v, ast.Name):
+                    shared = v.id not in ("value",) and not any(
+                        isinstance(a, ast.Assign) and isinstance(a.targets[0], ast.Name) and a.targets[0].id == v.id and _is_fresh(a.value)
+                        for a in walk_no_nested(fi.node))
+                res.check(rule, "%s: scenario['%s'] starts from a fresh dict" % (qual, kind), not shared, fi.loc(node), fi.qual, src(node)[:100],
+                          "%s makes a scenario's '%s' dictionary the manager-level object %s: SimulationScenario keeps it as its own "
+                          "settings table and configure_settings / the REST settings / set_property_value write into it in place, so one "
+                          "scenario's re-parameterisation changes the base settings and every other scenario that inherited them"
+                          % (qual, kind, src(v)), key="%s/%s/scenario[%s]<-%s" % (rule, qual, kind, src(v)))
+    res.floor("scenario settings-dict initialisations", nsd, 4)
+
+
+
 def check_c06(idx: Index, tier: str, res: Result) -> None:
     res.explanation = ("Alias/ownership analysis of scenario construction: nothing in the result-relevant state of a scenario's "
                        "model (Model.{equations, memo, points, constants, stocks, flows, biflows, converters, functions, fn}) may be "
@@ -139,33 +172,7 @@ def check_c06(idx: Index, tier: str, res: Result) -> None:
     res.check("FRESH", "the clone is made inside the per-scenario loop", in_loop, add.loc(), add.qual, "for name, scenario in ...",
               "the model is cloned once for all scenarios", key="FRESH/add_scenarios/loop")
 
-    # ---- SCENDICT: a scenario's own constants/points dicts never alias manager-level tables -----------------------
-    # (configure_settings, the REST settings handler and set_property_value write into scenario.constants/points in place)
-    nsd = 0
-    for qual in ("ScenarioManagerSd.add_scenarios", "ScenarioManagerSd.load_scenarios"):
-        fi = idx.func(SM_SD, qual)
-        for n in walk_no_nested(fi.node):
-            cand = []
-            if isinstance(n, ast.Assign) and isinstance(n.targets[0], ast.Subscript) and const_str(n.targets[0].slice) in ("constants", "points"):
-                cand.append((const_str(n.targets[0].slice), n.value, n))
-            if isinstance(n, ast.Call) and call_name(n) == "setdefault" and len(n.args) == 2 and const_str(n.args[0]) in ("constants", "points"):
-                cand.append((const_str(n.args[0]), n.args[1], n))
-            if isinstance(n, ast.Call) and call_name(n) == "get" and len(n.args) == 2 and const_str(n.args[0]) in ("constants", "points") \
-                    and isinstance(n.args[1], ast.Attribute):
-                cand.append((const_str(n.args[0]), n.args[1], n))
-            for kind, v, node in cand:
-                nsd += 1
-                shared = isinstance(v, (ast.Attribute, ast.Name)) and not _is_fresh(v)
-                if isinstance(v, ast.Name):
-                    shared = v.id not in ("value",) and not any(
-                        isinstance(a, ast.Assign) and isinstance(a.targets[0], ast.Name) and a.targets[0].id == v.id and _is_fresh(a.value)
-                        for a in walk_no_nested(fi.node))
-                res.check("ALIAS", "%s: scenario['%s'] starts from a fresh dict" % (qual, kind), not shared, fi.loc(node), fi.qual, src(node)[:100],
-                          "%s makes a scenario's '%s' dictionary the manager-level object %s: SimulationScenario keeps it as its own "
-                          "settings table and configure_settings / the REST settings / set_property_value write into it in place, so one "
-                          "scenario's re-parameterisation changes the base settings and every other scenario that inherited them"
-                          % (qual, kind, src(v)), key="ALIAS/%s/scenario[%s]<-%s" % (qual, kind, src(v)))
-    res.floor("scenario settings-dict initialisations", nsd, 4)
+    scenario_dict_alias_rule(idx, res, "ALIAS")
 
     # ---- REBIND: settings are merged, never substituted ---------------------------------------------------------
     nreb = 0
@@ -388,6 +395,9 @@ def check_c07(idx: Index, tier: str, res: Result) -> None:
     res.check("DEFUSE", "start() takes start/stop from the model when not given", "self.mod.starttime" in txt and "self.mod.stoptime" in txt, st.loc(), st.qual,
               "start = self.mod.starttime / until = self.mod.stoptime", "SdSimulation.start does not default to the model's run specs", key="DEFUSE/SdSimulation.start")
 
+    # a scenario's settings tables are its own: otherwise another scenario's settings determine this scenario's results
+    scenario_dict_alias_rule(idx, res, "OWN")
+
     # ---- MERGE: siblings --------------------------------------------------------------------------------------------------------
     for qual in ("ScenarioManagerSd.add_scenarios", "ScenarioManagerSd.load_scenarios"):
         fi = idx.func(SM_SD, qual)
@@ -413,14 +423,21 @@ def check_c07(idx: Index, tier: str, res: Result) -> None:
                 stars = [src(v) for k, v in zip(dct.keys, dct.values) if k is None]
                 if len(stars) == 2 and stars[0] == "self.%s" % base and ('"%s"' % kind) in stars[1].replace("'", '"'):
                     ok = True
+            # local aliases of the scenario's kind table:  constants = scenario.setdefault("constants", ...) / scenario["constants"]
+            kind_alias = set()
+            for a in walk_no_nested(fi.node):
+                if isinstance(a, ast.Assign) and isinstance(a.targets[0], ast.Name) and ('"%s"' % kind) in src(a.value).replace("'", '"'):
+                    kind_alias.add(a.targets[0].id)
             for lp in loops:
                 for g in ast.walk(lp):
                     if isinstance(g, ast.If) and isinstance(g.test, ast.UnaryOp) and isinstance(g.test.op, ast.Not) or \
                             (isinstance(g, ast.If) and isinstance(g.test, ast.Compare) and isinstance(g.test.ops[0], ast.NotIn)):
                         tsrc = src(g.test)
                         stores = [s for s in g.body if isinstance(s, ast.Assign) and isinstance(s.targets[0], ast.Subscript)
-                                  and _dict_reads(s.targets[0].value)[-1:] == [kind]]
-                        if ('"%s"' % kind in tsrc.replace("'", '"')) and stores:
+                                  and (_dict_reads(s.targets[0].value)[-1:] == [kind] or
+                                       (isinstance(s.targets[0].value, ast.Name) and s.targets[0].value.id in kind_alias))]
+                        tnames = {x.id for x in ast.walk(g.test) if isinstance(x, ast.Name)}
+                        if (('"%s"' % kind in tsrc.replace("'", '"')) or (tnames & kind_alias)) and stores:
                             ok = True
             res.check("MERGE", "%s merges %s, overrides win" % (qual, base), ok, fi.loc(), fi.qual, "for k, v in self.%s.items(): if not k in ...[%r]" % (base, kind),
                       "%s does not copy %s into a scenario's '%s' only where the scenario has no value of its own" % (qual, base, kind),
